@@ -801,6 +801,19 @@ pub fn check_buffer(ctx: &mut Ctx, buf: &[u8], o: &Opts) -> Outcome {
                                     format!("Ok({algo:?})"),
                                 );
                             }
+                            if let Some(li) = last_exposed_integrity(&rp.attrs) {
+                                if ri.correct_at(li) == Some(false) {
+                                    ctx.violation(
+                                        "C04",
+                                        "tampered-final-integrity-validates",
+                                        "Message::validate_integrity",
+                                        &tail_shape(buf, &rp.attrs),
+                                        wv,
+                                        format!("Err: the last exposed integrity attribute is not correct; reference: {:?}", ri.attrs),
+                                        format!("Ok({algo:?})"),
+                                    );
+                                }
+                            }
                             // C10: exposed ordinary attributes lie before the checked attribute
                             if let Some(ia) = rp.attrs.iter().find(|a| a.ty == ty) {
                                 let bad = ref_exposed_idx.iter().map(|i| &rp.attrs[*i]).any(|a| {
